@@ -72,6 +72,25 @@ static void run_dn(uint64_t i) {
 }
 static void desc_dn(uint64_t i, FILE *o) { int mi = i % 2; i /= 2; int fi = i % 7; i /= 7; int di = i % 5; int kind = (int)(i / 5); static const char *KN[] = { "bullet-staircase", "loose-enumerated-staircase", "quote-one-line", "quote-staircase", "list-in-footnote" };
 	fprintf(o, "\"construct\":\"%s\",\"depth\":%d,\"format\":\"%s\",\"mode\":\"%s\"", KN[kind], DN_DEPTH[di], FORMAT_NAMES[TEXT_FORMATS[fi]], mi ? "compat" : "mmd"); }
+/* wide tables and long lists: every cell / item word must reach the output (fixed-size bookkeeping such as kMaxTableColumns must not drop text) */
+static const int WT_N[6] = { 10, 47, 48, 49, 60, 130 };
+static void run_wt(uint64_t i) {
+	int mi = i % 2; i /= 2; int fi = i % 7; i /= 7; int ni = i % 6; int kind = (int)(i / 6); int n = WT_N[ni];
+	DString *d = d_string_new(""); char w[32];
+	if (kind == 0) { for (int r = 0; r < 3; r++) { for (int c = 0; c < n; c++) { if (r == 1) d_string_append(d, "|---"); else { snprintf(w, sizeof w, "| q%c%03d ", r ? 'b' : 'h', c); d_string_append(d, w); } } d_string_append(d, "|\n"); } }
+	else if (kind == 1) { for (int c = 0; c < n; c++) { snprintf(w, sizeof w, "* qb%03d item\n", c); d_string_append(d, w); } }
+	else { d_string_append(d, "text"); for (int c = 0; c < n; c++) { snprintf(w, sizeof w, "[^n%d]", c); d_string_append(d, w); } d_string_append(d, "\n\n"); for (int c = 0; c < n; c++) { snprintf(w, sizeof w, "[^n%d]: qb%03d note\n\n", c, c); d_string_append(d, w); } }
+	POOL_INIT(); char *out = NULL; srand(1);
+	K_TRY(out = mmd_string_convert(d->str, MODES[mi] | (kind == 2 ? 0 : 0), TEXT_FORMATS[fi], 0));
+	if (k_exited) k_violation("exit-called:wide", "conversion called exit(%d) [%s]", (int)k_exit_status, FORMAT_NAMES[TEXT_FORMATS[fi]]);
+	else if (out) {
+		if (k_stderr_len()) { char eb[300]; k_stderr_read(eb, sizeof eb); k_violation("stderr-output:wide", "[%s]: %s", FORMAT_NAMES[TEXT_FORMATS[fi]], eb); }
+		if (!(kind == 2 && mi == 1)) for (int c = 0; c < n; c++) { snprintf(w, sizeof w, "qb%03d", c); if (!strstr(out, w)) { k_violation("text-lost:wide", "%s number %d of %d is missing from the %s output", kind == 0 ? "table cell" : kind == 1 ? "list item" : "footnote", c + 1, n, FORMAT_NAMES[TEXT_FORMATS[fi]]); break; } }
+		k_outcome(k_fnv(out, strlen(out), K_FNV0 + fi)); free(out);
+	}
+	d_string_free(d, true); POOL_DRAIN();
+}
+static void desc_wt(uint64_t i, FILE *o) { int mi = i % 2; i /= 2; int fi = i % 7; i /= 7; int ni = i % 6; int kind = (int)(i / 6); fprintf(o, "\"construct\":\"%s\",\"count\":%d,\"format\":\"%s\",\"mode\":\"%s\"", kind == 0 ? "table-columns" : kind == 1 ? "list-items" : "footnotes", WT_N[ni], FORMAT_NAMES[TEXT_FORMATS[fi]], mi ? "compat" : "mmd"); }
 #define NSP 8
 static space SP[NSP];
 static void sp_run(int k, uint64_t idx) { space_pt p = space_decode(&SP[k], idx); size_t n = space_doc(&SP[k], &p, docbuf, sizeof docbuf); conv_case(docbuf, n, p.fmt, p.ext); }
@@ -100,6 +119,7 @@ int main(int argc, char **argv) {
 		{ "q_macro2", space_count(&SP[2]), run2, desc2, "qt", "macro fragments alone and in ordered pairs x 7 writers x 8 extension sets" },
 		{ "q_inline3core", space_count(&SP[7]), run7, desc7, "qt", "inline core (60 fragments) len 3 in {list item, footnote, definition} x 7 writers, MMD" },
 		{ "q_deep_nesting", 5 * 5 * 7 * 2, run_dn, desc_dn, "qt", "5 nesting constructs (list/quote staircases, list inside a footnote) x depth {20,60,150,300,400} (below the built-in limits) x 7 writers x {MMD,compat}: innermost text rendered, nothing on stderr" },
+		{ "q_wide", 3 * 6 * 7 * 2, run_wt, desc_wt, "qt", "tables of 10..130 columns, lists of 10..130 items, 10..130 footnotes x 7 writers x {MMD,compat}: every cell/item/note word rendered, nothing on stderr" },
 		{ "t_lines4core", space_count(&SP[3]), run3, desc3, "t", "one-per-kind lines len 4 x 7 writers x {MMD,compat}" },
 		{ "t_inline3", space_count(&SP[6]), run6, desc6, "t", "inline sequences len 3 x 4 contexts x 7 writers x {MMD,compat}" },
 		{ "t_lines4full", space_count(&SP[4]), run4, desc4, "t", "full line alphabet len 4 x {html,latex} x MMD" },
